@@ -165,6 +165,19 @@ func ruleOwn(p *Prog, r *RuleResult) {
 						}
 						for _, ref := range *val.Referrers() {
 							c := callOf(ref)
+							if c != nil {
+								if h := c.StaticCallee(); h != nil && h.Blocks != nil && FnPkg(h) == FnPkg(fn) {
+									okH := true
+									for ai, a := range c.Args {
+										if a == val && (ai >= len(h.Params) || !atomicOnlyParam(h, h.Params[ai], 0)) {
+											okH = false
+										}
+									}
+									if okH {
+										continue
+									}
+								}
+							}
 							if c == nil || c.StaticCallee() == nil || c.StaticCallee().Pkg == nil || c.StaticCallee().Pkg.Pkg.Path() != "sync/atomic" || len(c.Args) == 0 || c.Args[0] != val {
 								bad = true
 								r.fail(fmt.Sprintf("%s#non-atomic-counter-use", p.FnName(fn)), p.IPos(ref), "the shared block counter is accessed other than through sync/atomic in task code (data race)")
